@@ -487,6 +487,9 @@ fn oracle_c11(case: &Case, outs: &[ImplRes]) -> Result<(), String> {
 }
 
 fn oracle_c10(case: &Case, outs: &[ImplRes]) -> Result<(), String> {
+    if case.family == "e2e-resume" {
+        return expect_eq("SmlReader over a source that reports end of input between files and then delivers more", outs[0].text, &case.aux[0]);
+    }
     let toks: Vec<&str> = case.lines[0].split(' ').collect();
     let calls: Vec<char> = toks[3].chars().collect();
     let frames: Vec<Vec<&str>> = case.aux[0].split('#').map(|f| f.split('|').collect()).collect();
